@@ -27,6 +27,8 @@ THEOREMS = [
 TRUSTED = ["imperative translator harness/translate_algo.py + the hooks and glue listed at the top of harness/algo_specs/70_views.py + Model/Py.lean / PyViews.lean "
            "(slice.indices, range, fancy indexing), cross-checked by running every generated definition on the c09.history histories (gviews / gslice); "
            "records hold their owner by VALUE: Python's reference to the owner is the caller's store (Model/AlgoRunViews.lean)",
+           "the glue listed at the top of harness/algo_specs/72_helpers.py (Path/Tree.__iter__: a generator is the list of its values; Branch/Compartment.detach: "
+           "the DictSWC(**{...}) statement; method resolution of Branch(...) / Compartment(...)), cross-checked by the ghelpers lines (Model/AlgoRunHelpers.lean)",
            "hand-written heap model Model/Views.lean (owners, arrays, views; where numpy aliases and where it copies), tied by the c09.history correspondence: "
            "every read of every operation history compared exactly, plus np.shares_memory observations in the oracle"]
 ASSUMPTIONS = ["numpy: integer indexing and basic slices are views, fancy indexing and np.array(...) copy; copy.deepcopy copies arrays",
